@@ -8,11 +8,14 @@
 // window in either direction or on the connection window, more queued frames than the output channel holds with
 // the window opening, writer blocked on a peer that stopped reading with the output channel not yet full / full,
 // every position of a traffic script with frames in flight), with reactive and with passive peers, with and
-// without stream processors, and every schedule within the deviation bound: at quiescence (no virtual time
+// without stream processors, with an upstream connection whose Close succeeds, fails like tls.Conn.Close (the
+// close_notify alert cannot be written: server reset, failed write) or always fails (the socket is closed in every
+// case), and every schedule within the deviation bound: at quiescence (no virtual time
 // elapsed) Config.Proxy must have returned, the upstream connection it dialled must have been closed no later
 // than the return, and no thread it spawned may be alive.
 //
-// Files: scen.go (states, events, oracle), list.go (the scenario families of the two tiers), AUDIT.md (what is
+// Files: scen.go (states, events, oracle), upclose.go (the upstream connection whose Close reports an error, wrapped
+// around the dial seam), list.go (the scenario families of the two tiers), AUDIT.md (what is
 // covered, by which scenario, judged by which clause). Development aids: VERIF_C10_ONLY=<regexp> restricts the run
 // to matching scenarios, VERIF_C10_BOUND=<n> overrides their bound, VERIF_C10_STATS=1 prints per-scenario counts.
 package main
@@ -230,6 +233,6 @@ func main() {
 	rep.Coverage["exhaustive"] = rep.Incomplete == ""
 	rep.Coverage["bounds"] = boundsText(tier, scen)
 	rep.Coverage["explanation"] = "each execution runs the real h2 relay between frame-level endpoints that close their side when they observe EOF/error; the oracle is evaluated at the first quiescent point after the terminating event with zero virtual time elapsed"
-	rep.Assumptions = []string{"TLS is replaced by the dial seam (no close_notify)", "a peer that stopped reading never closes"}
+	rep.Assumptions = []string{"TLS is replaced by the dial seam; family upclose models the result of tls.Conn.Close (error when the close_notify alert cannot be written, socket closed anyway) but not a Close that blocks on the alert", "a peer that stopped reading never closes"}
 	rep.Finish()
 }
